@@ -528,11 +528,13 @@ func (in *Interp) eqNilAware(x, y value) *smt.Term {
 		return in.ctx.Bool(xv == nil && isNilValue(y))
 	case *bigBytes:
 		return in.ctx.False() // compared with nil: Bytes() never returns nil... treat as non-nil
+	case *opaqueSlice:
+		return in.ctx.False() // made by make([]byte, n): never nil
 	case *closure, *ssa.Function, *ssa.Builtin, *nativeFn:
 		return in.ctx.Bool(isNilValue(x) && isNilValue(y))
 	}
 	switch y.(type) {
-	case *bigBytes:
+	case *bigBytes, *opaqueSlice:
 		return in.ctx.False()
 	case *closure, *ssa.Function, *ssa.Builtin, *nativeFn:
 		return in.ctx.Bool(isNilValue(x) && isNilValue(y))
@@ -570,6 +572,19 @@ func (in *Interp) intBinop(op token.Token, xb, yb *types.Basic, x, y *smt.Term) 
 		}
 		if y.S.K != smt.KInt {
 			y = in.toInt(y, yb)
+		}
+		if x.IsConst() && y.IsConst() {
+			// bitwise operators on constants (big.Int implements two's-complement semantics for negative values)
+			switch op {
+			case token.AND:
+				return in.intConst(xb, new(big.Int).And(x.V, y.V))
+			case token.OR:
+				return in.intConst(xb, new(big.Int).Or(x.V, y.V))
+			case token.XOR:
+				return in.intConst(xb, new(big.Int).Xor(x.V, y.V))
+			case token.AND_NOT:
+				return in.intConst(xb, new(big.Int).AndNot(x.V, y.V))
+			}
 		}
 		switch op {
 		case token.ADD:
@@ -876,6 +891,8 @@ func (in *Interp) materialize(v value) sliceV {
 		return s
 	case *bigBytes:
 		return in.bigToBytes(s.t, -1)
+	case *opaqueSlice:
+		in.unsupported("access to the content of an opaque slice")
 	case nil:
 		return nil
 	}
@@ -1394,6 +1411,8 @@ func (in *Interp) callBuiltin(caller *frame, fn *ssa.Builtin, args []value) valu
 			return in.intConst(intB, big.NewInt(int64(len(x))))
 		case *bigBytes:
 			return in.bigBytesLen(x)
+		case *opaqueSlice:
+			return x.n
 		case *mapV:
 			if x == nil {
 				return in.intConst(intB, big.NewInt(0))
@@ -1416,6 +1435,8 @@ func (in *Interp) callBuiltin(caller *frame, fn *ssa.Builtin, args []value) valu
 			return in.intConst(intB, big.NewInt(int64(cap(x))))
 		case *bigBytes:
 			return in.bigBytesLen(x)
+		case *opaqueSlice:
+			return x.n
 		case *chanV:
 			if x == nil {
 				return in.intConst(intB, big.NewInt(0))
